@@ -60,7 +60,7 @@ STRUCT_FAULTS = ['twice', 'twice_other_spelling', 'cycle', 'self', 'missing_suit
 
 
 def total_runs(tier):
-    return len(sweep_specs()) + (500 if tier == 'quick' else 25000)
+    return len(sweep_specs()) + (500 if tier == 'quick' else 50000)
 
 
 _SW = {}
